@@ -1,3 +1,7 @@
+// the real struct derives Clone and Copy (attributes are dropped by N1, so the two impls are restated here)
+impl<const BITS: usize, const LIMBS: usize> Clone for Uint<BITS, LIMBS> { fn clone(&self) -> (r: Self) ensures r == *self { Uint { limbs: self.limbs } } }
+impl<const BITS: usize, const LIMBS: usize> Copy for Uint<BITS, LIMBS> {}
+
 // ===== abstract view of Uint (spec/proof only) =====
 impl<const BITS: usize, const LIMBS: usize> Uint<BITS, LIMBS> {
     // the type is correctly sized: LIMBS = ceil(BITS/64)  (enforced at compile time by Self::LIMBS)
